@@ -171,6 +171,7 @@ func init() {
 			g14ReservedProvenance(c.Repo, c.Rep)
 			g14AddNameUsed(c.Repo, c.Rep)
 			g16Eq(c)
+			g21ReserveEveryCalledName(c.Repo, c.Rep)
 			// "fails exactly when …": a detected conflict or duplicate must reach the exit status
 			runG1(c.Repo, c.Rep)
 			// "call identifier replaced in the AST and file rewritten": the rewrite must truncate, go to the file's own
